@@ -167,10 +167,15 @@ def r09_5(prog: Program, rep: Report):
         child = child_of(p)
         not_class = any((not pol) and T.is_call_to(g, "inspect.isclass") and g[2] == (child,) for g, pol in p.guards())
         for c in p.calls():
-            if T.is_call_to(c, "typelib.py.refs.forwardref"):
+            # (the reference *synthesised for the cut* names a module; turning a string member into a reference does not)
+            if T.is_call_to(c, "typelib.py.refs.forwardref") and "module" in dict(c[3]):
                 calls[T.show(c) + str(not_class)] = (c, child, not_class)
+                # an unlabelled generic (the annotation is its own unwrapped form) may have been taken by an earlier
+                # branch that keeps the annotation itself; a *labelled* one (NewType / alias of a generic) has a name
+                is_own_unwrapped = lambda s: s[0] == "cmp" and s[1] == "is" and (T.is_call_to(s[3], f"{C.INSP}.unwrap") or T.is_call_to(s[2], f"{C.INSP}.unwrap"))  # noqa: E731
+                diverted = any((not pol) and T.contains(g, is_own_unwrapped) for g, pol in p.guards())
                 for g, pol in p.guards():
-                    if pol and T.contains(g, lambda s: T.is_call_to(s, f"{C.INSP}.issubscriptedgeneric")):
+                    if pol and T.contains(g, lambda s: T.is_call_to(s, f"{C.INSP}.issubscriptedgeneric")) and not diverted:
                         admits_subscripted = True
     if not calls:
         rep.held("R09.5", q, f.loc, "the cut does not synthesise forward references", nontrivial=False)
@@ -350,7 +355,71 @@ def r09_4(prog: Program, rep: Report):
     rep.check(bool(memo), "R09.4", f.qualname, f.loc, "static_order is memoised (reference inputs share the evaluated type's entry)", "static_order is no longer memoised", detail="memo")
 
 
+def r09_10(prog: Program, rep: Report, rule="R09.10"):
+    """A revisited generic deferred *as the annotation itself* (flagged cyclic, not descended into) only works if (a) the
+    flag makes the node distinct from the real node of the same annotation -- otherwise the sorter sees a member depending
+    on its own container (CycleError) -- and (b) both factories build a lazy proxy for such a node and let that stand-in
+    give way when the real node arrives (otherwise the root resolves to a proxy of itself: unbounded recursion)."""
+    import ast as _ast
+
+    f, ps = graph_paths(prog)
+    own = False
+    for p in ps:
+        child = child_of(p)
+        for tm in p.all_terms():
+            for x in T.walk(tm):
+                if _is_typenode(x) and node_args(x).get("cyclic") == ("const", True):
+                    ty = node_args(x).get("type")
+                    if ty is not None and not T.contains(ty, lambda y: T.is_call_to(y, "typelib.py.refs.forwardref") and "module" in dict(y[3])):
+                        own = True
+    if not own:
+        rep.held(rule, f.qualname, f.loc, "the walk defers revisits as forward references only (no annotation-typed deferred nodes)", detail="own-type-deferred", nontrivial=False)
+        return
+    # (a) the flag takes part in equality
+    tn = prog.classes.get(f"{MOD}.TypeNode")
+    distinct = None
+    if tn is not None:
+        for n in tn.node.body:
+            if isinstance(n, _ast.AnnAssign) and isinstance(n.target, _ast.Name) and n.target.id == "cyclic":
+                distinct = True
+                if isinstance(n.value, _ast.Call):
+                    for kw in n.value.keywords:
+                        if kw.arg in ("compare", "hash") and isinstance(kw.value, _ast.Constant) and kw.value.value is False:
+                            distinct = False
+    if distinct is None:
+        rep.undecided(rule, f"{MOD}.TypeNode", f.loc, "field `cyclic` of TypeNode not found", detail="deferred-distinct")
+    else:
+        rep.check(distinct, rule, f"{MOD}.TypeNode", tn.loc, "a deferred node is distinct from the real node of the same annotation (cyclic takes part in ==/hash)", "TypeNode.cyclic is excluded from ==/hash while the walk defers a revisited generic as the annotation itself: the deferred node *is* the real node for the sorter, a member then depends on its own container (list[JSON] inside JSON inside list[JSON]) and static_order raises CycleError", detail="deferred-distinct")
+    # (b) both factories
+    for d in ("marshal", "unmarshal"):
+        disp = C.dispatcher(prog, d)
+        rows = C.handlers(prog, d)
+        proxy = rows[0].routine if rows and rows[0].pred_name == "isforwardref" else None
+        node = ("param", disp.params[0])
+        ctxp = ("param", disp.params[1])
+        cyc = ("attr", node, "cyclic")
+        dps = P.paths_of(prog, disp)
+        lazy = False
+        reuse_ok = True
+        reuse_seen = False
+        for p, r in P.returns(dps):
+            gs = p.guards()
+            in_loop = any(e[0] == "loop" for e in p.events)
+            if proxy is not None and T.is_call_to(r, proxy.qualname) and not in_loop and any(g == cyc and pol for g, pol in gs) and r[2][:1] in ((("attr", node, "type"),), (("attr", node, "unwrapped"),)):
+                lazy = True
+            if r[0] == "sub" and r[1] == ctxp:
+                reuse_seen = True
+                is_proxy = lambda g: proxy is not None and T.is_call_to(g, "builtins.isinstance") and T.refname(g[2][1]) == proxy.qualname  # noqa: E731
+                ok = any((g == cyc and pol) or (is_proxy(g) and not pol) for g, pol in gs) or any(pol and g[0] == "boolop" and g[1] == "or" and any(x == cyc or (x[0] == "not" and is_proxy(x[1])) for x in g[2]) for g, pol in gs)
+                if not ok:
+                    reuse_ok = False
+        rep.check(lazy, rule, disp.qualname, disp.loc, f"{d}: a cyclic-flagged node that is not built yet gets the lazy proxy", f"{d}: a node flagged cyclic is dispatched like any other: the routine of a revisited generic is built at once from a context that does not hold its members yet (KeyError), or the stand-in is never created", detail=f"{d}-deferred-lazy")
+        rep.check(reuse_ok or not reuse_seen, rule, disp.qualname, disp.loc, f"{d}: the stand-in of a deferred generic gives way to the routine of the real node", f"{d}: the routine already stored under the annotation is reused for the real node even when it is the lazy stand-in of a deferred revisit: the root of list[Node] becomes a proxy that resolves to itself (RecursionError on the first call)", detail=f"{d}-deferred-gives-way")
+
+
 def run(prog: Program, rep: Report, tier: str):
+    rep.rule("R09.10", "annotation-typed deferred nodes: distinct from the real node, resolved lazily, and giving way to it", floor=1)
+    r09_10(prog, rep)
     rep.rule("R09.1", "every non-skipped child contributes a predecessor; parents always added", floor=3)
     rep.rule("R09.2", "forward-ref node ⇔ cyclic flag ⇔ revisit; revisit test agrees with what is recorded", floor=3)
     rep.rule("R09.3", "_level = generic arguments ∪ type hints of the unwrapped parent", floor=3)
